@@ -14,7 +14,8 @@ EXPLANATION = (
     "component is the book clock / the strictly increasing queue stamp at the call, never a stored field or constant, K4 "
     "each matching loop pops the head of the opposite side while `aggressor.vol > 0 && limit admits best price` and exits "
     "only when a conjunct fails or the side is empty, K5 the fill is min(volumes) at the passive price, K6 typestate exit "
-    "states: a limit remainder is queued on its own side iff not Filled, a market remainder never rests. The induction "
+    "states: a limit remainder is queued on its own side iff not Filled, a market remainder never rests, K7 a Modify event "
+    "reduces in place exactly for a pure strict volume reduction and otherwise re-enters the order (C06's dispatch rules). The induction "
     "itself is an informal argument; no numeric history is evaluated.")
 
 
@@ -63,9 +64,7 @@ def key_write_rules(ctx, m, op_roots, k1="K1-key-price", k3="K3-queue-time"):
     key_builders = KEY_BUILDERS
     stamp = stamp_fn(m)
     n_key = 0
-    for f in op_roots:
-
-        q = m.ov(f)
+    for (f, q) in [(f_, m.sv(f_, S_)) for f_ in op_roots for S_ in ("Bid", "Ask")]:
         price_writes = q.writes(field="price", owner="Order")
         for w in q.writes(field="key", owner="OrderEntry"):
             n_key += 1
@@ -159,8 +158,7 @@ def run(ctx):
         ctx.check(ok, "K1-key-price", "create|entry", pushes[0].loc(), "the stored entry pairs the order with the key built from that order's price",
                   "the stored entry's key is not built from the stored order's price")
     # price writes: only where the key is rebuilt afterwards
-    for f in op_roots:
-        q = m.ov(f)
+    for (f, q) in [(f_, m.sv(f_, S_)) for f_ in op_roots for S_ in ("Bid", "Ask")]:
         for pw in q.writes(field="price", owner="Order"):
             E = pw.addr[1]
             X = E[1] if E[0] == "field" and E[2] == "order" else None
@@ -176,19 +174,32 @@ def run(ctx):
     c02.writeback(ctx, m)      # the working copy of the order is stored back on every modifying path
 
     # ---------------------------------------------------------------- K4 matching loops
-    matchers = m.matchers()
-    ctx.check(len(matchers) == 2 and {s for (_f, s, _c) in matchers} == {"Bid", "Ask"}, "K4-loop", "matchers", "-",
-              "two matching loops, one per passive side", "expected one matching loop per passive side, found %s" % [(f.short(), s) for f, s, _c in matchers])
-    for (f, r, c) in matchers:
-        q = m.q(f)
-        heads = q.cfg.loops_containing(c.b)
-        head = heads[0]
+    # (judged on the side-specialised whole-operation views of place_order / modify_order: the loop may be written once per
+    #  passive side, or once for both with the passive side chosen from the aggressor's side, and its condition may live in
+    #  a helper returning the next passive id)
+    loopsites = []
+    for root_ in (m.book_fn("place_order"), m.book_fn("modify_order")):
+        for S_ in ("Bid", "Ask"):
+            q_ = m.sv(root_, S_)
+            live_ = q_.cfg.reach_from(0)
+            for (h_, sd_, c_) in m.ov_matching_loops(q_):
+                if h_ in live_:
+                    loopsites.append((q_, h_, sd_, c_, root_, S_))
+    ctx.check(len(loopsites) >= 2 and {x[2] for x in loopsites} == {"Bid", "Ask"}, "K4-loop", "matchers", "-",
+              "%d matching-loop contexts over both passive sides" % len(loopsites), "expected matching loops over both passive sides, found %s" % sorted({x[2] for x in loopsites}))
+    tw_paths = {t_[0].path for t_ in m.trade_writers()}
+
+    def is_agg(e):
+        """an expression over the aggressor: not derived from the passive queue head"""
+        return not any(x[0] == "call" and x[4] == "best_order_idx" for x in walk(e))
+    for (q, head, r, c, root_, S_) in loopsites:
+        f = root_
+        pre = "%s|%s" % (root_.short(), r)
         body = q.body.loop_body(head)
         g = c.guards
-        # aggressor entity: the order parameter
         vol_atoms = [a for a in g if a[0] == "cmp" and a[1] in ("gt", "ne") and a[2][0] == "field" and a[2][2] == "vol" and a[3][0] == "const" and a[3][3] == 0
-                     and field_chain(a[2])[0][0] == "param"]
-        ctx.check(len(vol_atoms) == 1, "K4-loop", f.short() + "|vol", c.loc(), "passive order acquired only while aggressor.vol > 0",
+                     and is_agg(a[2])]
+        ctx.check(len(vol_atoms) >= 1, "K4-loop", pre + "|vol", c.loc(), "passive order acquired only while aggressor.vol > 0",
                   "loop condition lacks `aggressor.vol > 0` (conditions: %s)" % c.gtext())
         price_ok = False
         for a in g:
@@ -196,12 +207,12 @@ def run(ctx):
                 lo, hi = a[2], a[3]
                 if r == "Ask":
                     # best ask <= aggressor limit
-                    if lo[0] == "call" and lo[4] == "best_price" and "AskSide" in lo[1] and hi[0] == "field" and hi[2] == "price" and field_chain(hi)[0][0] == "param":
+                    if lo[0] == "call" and lo[4] == "best_price" and "AskSide" in lo[1] and hi[0] == "field" and hi[2] == "price" and is_agg(hi):
                         price_ok = True
                 else:
-                    if hi[0] == "call" and hi[4] == "best_price" and "BidSide" in hi[1] and lo[0] == "field" and lo[2] == "price" and field_chain(lo)[0][0] == "param":
+                    if hi[0] == "call" and hi[4] == "best_price" and "BidSide" in hi[1] and lo[0] == "field" and lo[2] == "price" and is_agg(lo):
                         price_ok = True
-        ctx.check(price_ok, "K4-loop", f.short() + "|limit", c.loc(),
+        ctx.check(price_ok, "K4-loop", pre + "|limit", c.loc(),
                   "passive order acquired only while the limit admits the best %s price (%s)" % (r.lower(), "limit >= best ask" if r == "Ask" else "limit <= best bid"),
                   "loop condition lacks the non-strict limit test against the %s side's best price (conditions: %s)" % (r, c.gtext()))
         # same entity in both atoms
@@ -209,49 +220,77 @@ def run(ctx):
             e1 = vol_atoms[0][2][1]
             e2s = [a for a in g if a[0] == "cmp" and a[1] == "le"]
             ent_ok = any(same(x[1], e1) for a in e2s for x in (a[2], a[3]) if x[0] == "field" and x[2] == "price")
-            ctx.check(ent_ok, "K4-loop", f.short() + "|same-order", c.loc(), "volume and limit tests refer to the same (aggressor) order")
+            ctx.check(ent_ok, "K4-loop", pre + "|same-order", c.loc(), "volume and limit tests refer to the same (aggressor) order")
+
+        def is_best(x):
+            return x[0] == "call" and x[4] == "best_price" and (r + "Side") in x[1]
+
+        def is_limit(x):
+            return x[0] == "field" and x[2] == "price" and is_agg(x)
+
+        def is_cond_conj(x):
+            """x is one of the two conjuncts of the loop condition (as an expression)"""
+            if x[0] != "bin":
+                return False
+            if x[1] in ("Gt", "Ne", "Lt") and any(y[0] == "field" and y[2] == "vol" for y in (x[2], x[3])) and any(y[0] == "const" and y[3] == 0 for y in (x[2], x[3])):
+                return True
+            return x[1] in ("Ge", "Le") and ((is_best(x[2]) and is_limit(x[3])) or (is_best(x[3]) and is_limit(x[2])))
+
+        def legit(atoms):
+            """a reason for which the loop may be left, among the branch atoms `atoms`"""
+            for a in atoms:
+                if a[0] == "bool" and a[2] is False and a[1][0] == "bin" and a[1][1] == "BitAnd" and is_cond_conj(a[1][2]) and is_cond_conj(a[1][3]):
+                    return "loop condition false"
+                if a[0] == "cmp" and a[1] in ("eq", "le") and a[2][0] == "field" and a[2][2] == "vol" and a[3][0] == "const" and a[3][3] == 0 and is_agg(a[2]):
+                    return "aggressor exhausted (vol == 0)"
+                if a[0] == "cmp" and a[1] == "lt" and ((r == "Ask" and is_limit(a[2]) and is_best(a[3])) or (r == "Bid" and is_best(a[2]) and is_limit(a[3]))):
+                    return "limit no longer admits the best %s price" % r.lower()
+                if a[0] == "variant" and a[2] == ("None",) and a[1][0] == "call" and a[1][4] == "best_order_idx":
+                    return "opposite side empty (best_order_idx is None)"
+            return None
+
+        def none_sources(b):
+            """for a switch on an Option that is NOT directly the queue head: where its `None` can come from - each source must
+            itself be a reason to stop (the queue-head call returning None, or a None built under a legitimate condition)"""
+            defs = q.cfg.switch_value_defs(b)
+            if not defs:
+                return None
+            out = []
+            for d in defs:
+                if d[0] == "call" and d[2] == "best_order_idx":
+                    out.append("opposite side empty (best_order_idx is None)")
+                elif d[0] == "agg" and d[2] == "None":
+                    why = legit(q.cfg.guards(d[1]))
+                    if why is None:
+                        return None
+                    out.append(why)
+                elif d[0] == "agg" and d[2] == "Some":
+                    continue
+                else:
+                    return None
+            return out
         # exits
         exits = []
         for b in sorted(body):
-            for s in q.body.succs(b):
-                if s not in body and not q.body.blocks[s].cleanup and q.body.blocks[s].term.k != "unreachable":
-                    exits.append((b, s))
-        for (b, s) in exits:
+            for s_ in q.body.succs(b):
+                if s_ not in body and not q.body.blocks[s_].cleanup and q.body.blocks[s_].term.k != "unreachable":
+                    exits.append((b, s_))
+        for (b, s_) in exits:
             t = q.body.blocks[b].term
-            atoms = q.cfg.edge_atoms(b, s) if t.k == "switch" else None
+            atoms = q.cfg.edge_atoms(b, s_) if t.k == "switch" else None
             ok = False
             why = ""
             if atoms is not None:
-                def is_best(x):
-                    return x[0] == "call" and x[4] == "best_price" and (r + "Side") in x[1]
-
-                def is_limit(x):
-                    return x[0] == "field" and x[2] == "price" and field_chain(x)[0][0] == "param"
-
-                def is_cond_conj(x):
-                    """x is one of the two conjuncts of the loop condition (as an expression)"""
-                    if x[0] != "bin":
-                        return False
-                    if x[1] in ("Gt", "Ne", "Lt") and any(y[0] == "field" and y[2] == "vol" for y in (x[2], x[3])) and any(y[0] == "const" and y[3] == 0 for y in (x[2], x[3])):
-                        return True
-                    return x[1] in ("Ge", "Le") and ((is_best(x[2]) and is_limit(x[3])) or (is_best(x[3]) and is_limit(x[2])))
-                for a in atoms:
-                    if a[0] == "bool" and a[2] is False and a[1][0] == "bin" and a[1][1] == "BitAnd" and is_cond_conj(a[1][2]) and is_cond_conj(a[1][3]):
+                why = legit(atoms)
+                ok = why is not None
+                if not ok and any(a[0] == "variant" and a[2] == ("None",) for a in atoms):
+                    srcs = none_sources(b)
+                    if srcs:
                         ok = True
-                        why = "loop condition false"
-                    if a[0] == "cmp" and a[1] in ("eq", "le") and a[2][0] == "field" and a[2][2] == "vol" and a[3][0] == "const" and a[3][3] == 0 \
-                            and field_chain(a[2])[0][0] == "param":
-                        ok = True
-                        why = "aggressor exhausted (vol == 0)"
-                    if a[0] == "cmp" and a[1] == "lt" and ((r == "Ask" and is_limit(a[2]) and is_best(a[3])) or (r == "Bid" and is_best(a[2]) and is_limit(a[3]))):
-                        ok = True
-                        why = "limit no longer admits the best %s price" % r.lower()
-                    if a[0] == "variant" and a[2] == ("None",) and a[1][0] == "call" and a[1][4] == "best_order_idx":
-                        ok = True
-                        why = "opposite side empty (best_order_idx is None)"
-            ctx.check(ok, "K4-loop", "%s|exit-bb%d" % (f.short(), 0 if ok else b), q.loc(t.sp),
+                        why = "next passive id is None: " + " / ".join(sorted(set(srcs)))
+            ctx.check(ok, "K4-loop", "%s|exit-bb%d" % (pre, 0 if ok else b), q.loc(t.sp),
                       "loop exit: %s" % why, "matching loop can be left for another reason: %s" % (" && ".join(render_atom_safe(a) for a in (atoms or [])) or t.k))
-        ctx.check(len(exits) >= 1, "K4-loop", f.short() + "|exits", ctx.loc(f), "%d loop exits analysed" % len(exits))
+        ctx.check(len(exits) >= 1, "K4-loop", pre + "|exits", c.loc(), "%d loop exits analysed" % len(exits))
         # termination: when the opposite side is empty (best_order_idx is None) the loop must be LEFT – otherwise a
         # market order (whose sentinel price always admits the empty side's sentinel best price) spins forever
         none_edges = []
@@ -260,17 +299,22 @@ def run(ctx):
             if t.k != "switch":
                 continue
             for s2 in set(q.body.succs(b)):
-                if any(a[0] == "variant" and a[2] == ("None",) and a[1][0] == "call" and a[1][4] == "best_order_idx" for a in q.cfg.edge_atoms(b, s2)):
+                ats = q.cfg.edge_atoms(b, s2)
+                if any(a[0] == "variant" and a[2] == ("None",) and a[1][0] == "call" and a[1][4] == "best_order_idx" for a in ats):
                     none_edges.append((b, s2))
+                elif any(a[0] == "variant" and a[2] == ("None",) for a in ats):
+                    defs = q.cfg.switch_value_defs(b) or []
+                    if any(d[0] == "call" and d[2] == "best_order_idx" for d in defs):
+                        none_edges.append((b, s2))
         outside = [x for x in range(len(q.body.blocks)) if x not in body]
         leaves = bool(none_edges) and all(s2 not in body or head not in q.cfg.reach_from(s2, cut_blocks=outside) for (_b, s2) in none_edges)
-        ctx.check(leaves, "K4-loop", f.short() + "|empty-side-exit", c.loc(), "when the %s side is empty (no best order) the matching loop is left" % r.lower(),
+        ctx.check(leaves, "K4-loop", pre + "|empty-side-exit", c.loc(), "when the %s side is empty (no best order) the matching loop is left" % r.lower(),
                   "with the %s side empty the loop is not left (no path from the `None` arm leaves it before the next iteration): an unfillable market order never terminates" % r.lower())
         # progress: every iteration that acquires a passive order calls the trade writer (fill >= 1 by K5 / vol > 0)
-        tw = [x for x in q.calls() if x.b in body and x.target is not None and x.target.path in {t_[0].path for t_ in m.trade_writers()}]
+        tw = [x for x in q.calls() if x.b in body and x.target is not None and x.target.path in tw_paths]
         succ_c = [x for x in q.body.succs(c.b) if not q.body.blocks[x].cleanup]
-        prog_ok = bool(tw) and bool(succ_c) and (head not in q.cfg.reach_from(succ_c[0], cut_blocks=set(outside) | {x.b for x in tw} | {s2 for (_b, s2) in none_edges}))
-        ctx.check(prog_ok, "K4-loop", f.short() + "|progress", c.loc(), "every iteration either fills (trade writer called) or leaves the loop",
+        prog_ok = bool(tw) and bool(succ_c) and (head not in q.cfg.reach_from(succ_c[0], cut_blocks=set(outside) | {x.b for x in tw} | {s2 for (_b, s2) in none_edges if s2 != head}))
+        ctx.check(prog_ok, "K4-loop", pre + "|progress", c.loc(), "every iteration either fills (trade writer called) or leaves the loop",
                   "an iteration can return to the loop head without a fill and without leaving")
         # aggressor side = opposite(r) in every calling context
         # (the typestate runs on whole-operation views: the contexts are the fills it meets, see `K4-fill-sides` below)
@@ -296,13 +340,14 @@ def run(ctx):
     # entry to a normal return that does not see trading == false and does not bail out on the order's status passes
     # through a matching loop whose passive side is opposite(S).
     pf = m.book_fn("place_order")
-    q = m.ov(pf)
-    loops = m.ov_matching_loops(q)
-    ctx.check(len(loops) >= 2 and {sd for (_h, sd, _c) in loops} == {"Bid", "Ask"}, "K4-run", "census", ctx.loc(pf),
-              "%d matching loops inside the whole-operation view of place_order (both passive sides)" % len(loops))
-    heads_all = {h for (h, _sd, _c) in loops}
-    rets = q.body.return_blocks()
+    n_loops_run = 0
     for S in ("Bid", "Ask"):
+        q = m.sv(pf, S)
+        live0 = q.cfg.reach_from(0)
+        loops = [x for x in m.ov_matching_loops(q) if x[0] in live0]
+        n_loops_run += len(loops)
+        heads_all = {h for (h, _sd, _c) in loops}
+        rets = q.body.return_blocks()
         cut_edges = []
         for blk in q.body.blocks:
             t = blk.term
@@ -311,8 +356,6 @@ def run(ctx):
             for s2 in set(q.body.succs(blk.i)):
                 for a in q.cfg.edge_atoms(blk.i, s2):
                     if a[0] == "bool" and a[2] is False and fld(a[1], m.f_trading):
-                        cut_edges.append((blk.i, s2))
-                    elif a[0] == "variant" and set(a[2]) <= {"Bid", "Ask"} and S not in a[2]:
                         cut_edges.append((blk.i, s2))
                     elif a[0] == "cmp" and a[1] in ("eq", "ne") and any(x[0] == "field" and x[2] == "status" for x in (a[2], a[3])) \
                             and not (q.cfg.reach_from(s2) & heads_all):
@@ -326,16 +369,17 @@ def run(ctx):
         wrong = [h for (h, sd, _c) in loops if sd == S and h in reach]
         ctx.check(not wrong, "K4-run", "place_order|wrong-side|" + S, ctx.loc(pf), "a new %s order never enters the %s-side (its own side's) matching loop" % (S, S),
                   "a new %s order can enter the matching loop over its own side" % S)
+    ctx.check(n_loops_run >= 2, "K4-run", "census", ctx.loc(pf), "%d matching loops inside the side-specialised whole-operation views of place_order" % n_loops_run)
     c02.never_crossed(ctx, m, rule="K4-match-before-rest")
 
     # ---------------------------------------------------------------- K5 fill rule
     r5 = c03.fill_rules(ctx, m, census=False)
     if r5 is not None:
         twf, tq, push, pas, agg, tparam, delta = r5
-        for f in m.book_all_fns():
-            fq = m.q(f)
+        for (f, fq) in [(f_, m.sv(f_, S_)) for f_ in (m.book_fn("place_order"), m.book_fn("modify_order")) for S_ in ("Bid", "Ask")]:
+            live = fq.cfg.reach_from(0)
             for c in fq.calls(twf.name):
-                if c.target is None or c.target.path != twf.path:
+                if c.target is None or c.target.path != twf.path or c.b not in live:
                     continue
                 a_p = c.arg_named(pas)
                 from_best = a_p is not None and any(x[0] == "call" and x[4] == "best_order_idx" for x in walk(a_p))
@@ -361,6 +405,9 @@ def run(ctx):
     ins_sides = [(o[2], o[3], {t[2] for t in o[4]}) for o in ts.ops if o[1] == "insert"]
     ctx.check(all(sd == {s} for (s, _w, sd) in ins_sides) and len(ins_sides) >= 6, "K6-remainder", "own-side", "-",
               "all %d insertion sites file the order on its own side" % len(ins_sides))
+    # ---------------------------------------------------------------- K7 modification events (process_event replays them)
+    from .c06 import modify_rules, _Prefixed
+    modify_rules(_Prefixed(ctx, "K7-modify-"), m, with_typestate=False)
     ctx.assume("valid histories: clock non-decreasing; limit prices strictly between 0 and 2^32-1; equal-time ties are C05's subject")
 
 
